@@ -258,7 +258,8 @@ LeafItems(def, it) ==
        \cup (IF "eq" \in RangeOf(A.spells)
              THEN {[t |-> "eq", s |-> n, v |-> w, txt |-> n \o "=" \o w] : n \in NamesOf(it), w \in W} ELSE {})
        \cup (IF "glued" \in RangeOf(A.spells)
-             THEN {[t |-> "glued", s |-> n, v |-> w, txt |-> n \o w] : n \in RangeOf(it.shorts), w \in W} ELSE {})
+             THEN {[t |-> "glued", s |-> n, v |-> w, txt |-> n \o w] : n \in RangeOf(it.shorts),
+                                                                       w \in W \ RangeOf(A.noglue)} ELSE {})
 
 \* short-option clusters of one level: two flags, or a flag followed by a short argument whose
 \* value is attached (-abVALUE) or is the next item (-ab VALUE)
@@ -267,13 +268,20 @@ ClusterItems(def, lvl) ==
                   : k \in {k \in DOMAIN lvl.named : lvl.named[k].kind # "arg"}}
       A == UNION {{<<lvl.named[k].shorts[j], lvl.named[k].letters[j]>> : j \in DOMAIN lvl.named[k].shorts}
                   : k \in {k \in DOMAIN lvl.named : lvl.named[k].kind = "arg"}}
-      W == RangeOf(def.alpha.eqvals) IN
-  {[t |-> "cluster", s |-> "", v |-> "", ss |-> <<a[1], b[1]>>, last |-> "", hasv |-> FALSE,
-    txt |-> "-" \o a[2] \o b[2]] : a \in F, b \in F}
-  \cup {[t |-> "cluster", s |-> "", v |-> w, ss |-> <<a[1]>>, last |-> o[1], hasv |-> TRUE,
-         txt |-> "-" \o a[2] \o o[2] \o w] : a \in F, o \in A, w \in W}
-  \cup {[t |-> "cluster", s |-> "", v |-> "", ss |-> <<a[1]>>, last |-> o[1], hasv |-> FALSE,
-         txt |-> "-" \o a[2] \o o[2]] : a \in F, o \in A}
+      W == RangeOf(def.alpha.eqvals) \ RangeOf(def.alpha.noglue)
+      \* flag sequences: pairs, and triples when the family asks for them
+      FS2 == {<<a, b>> : a \in F, b \in F}
+      FS3 == IF def.alpha.clusters3 THEN {<<a, b, c>> : a \in F, b \in F, c \in F} ELSE {}
+      FS1 == {<<a>> : a \in F}
+      Names(fs) == [i \in DOMAIN fs |-> fs[i][1]]
+      Txt(fs) == IF Len(fs) = 1 THEN fs[1][2] ELSE IF Len(fs) = 2 THEN fs[1][2] \o fs[2][2]
+                 ELSE fs[1][2] \o fs[2][2] \o fs[3][2] IN
+  {[t |-> "cluster", s |-> "", v |-> "", ss |-> Names(fs), last |-> "", hasv |-> FALSE,
+    txt |-> "-" \o Txt(fs)] : fs \in FS2 \cup FS3}
+  \cup {[t |-> "cluster", s |-> "", v |-> w, ss |-> Names(fs), last |-> o[1], hasv |-> TRUE,
+         txt |-> "-" \o Txt(fs) \o o[2] \o w] : fs \in FS1 \cup (IF def.alpha.clusters3 THEN FS2 ELSE {}), o \in A, w \in W}
+  \cup {[t |-> "cluster", s |-> "", v |-> "", ss |-> Names(fs), last |-> o[1], hasv |-> FALSE,
+         txt |-> "-" \o Txt(fs) \o o[2]] : fs \in FS1 \cup (IF def.alpha.clusters3 THEN FS2 ELSE {}), o \in A}
 
 RECURSIVE CmdNames(_)
 CmdNames(lvl) == IF lvl.tail.kind = "cmd"
@@ -384,4 +392,24 @@ SwapCommutes ==
       (B.len > 0 /\ A.depth = B.depth /\ ~(A.kind = "pos" /\ B.kind = "pos")
          /\ ~(A.kind = "named" /\ B.kind = "named" /\ A.id = B.id)) =>
         Outcome(Run(InitSt(def), SwapAt(line, k, A.len, B.len)), env) = Out
+(* ------------------------------------------------------------------ C02: equivalent spellings *)
+\* every other way of writing the attached occurrence at position k (other name of the same item,
+\* `=` or glued form, or name and value as two items when the value is an ordinary word)
+Respellings(d, l, k) ==
+  LET e == l[k]
+      s == Run(InitSt(d), SubSeq(l, 1, k - 1))
+      own == IF s.posOnly \/ s.pending # "" THEN {} ELSE Owner(Cur(s).lvl, e.s) IN
+  IF e.t \notin {"eq", "glued"} \/ own = {} THEN {}
+  ELSE LET it == Cur(s).lvl.named[CHOOSE j \in own : TRUE]
+           pre == SubSeq(l, 1, k - 1)  post == SubSeq(l, k + 1, Len(l)) IN
+       IF it.kind # "arg" THEN {}
+       ELSE {pre \o <<[t |-> "eq", s |-> n, v |-> e.v, txt |-> n \o "=" \o e.v]>> \o post : n \in NamesOf(it)}
+            \cup {pre \o <<[t |-> "glued", s |-> n, v |-> e.v, txt |-> n \o e.v]>> \o post :
+                    n \in (IF e.v \in RangeOf(d.alpha.noglue) THEN {} ELSE RangeOf(it.shorts))}
+            \cup (IF it.adj \/ e.v \notin RangeOf(d.alpha.words) THEN {}
+                  ELSE {pre \o <<[t |-> "name", s |-> n, txt |-> n], [t |-> "word", s |-> e.v, txt |-> e.v]>> \o post
+                          : n \in NamesOf(it)})
+RespellStutters ==
+  \A k \in 1..Len(line) : \A l2 \in Respellings(def, line, k) :
+      Outcome(Run(InitSt(def), l2), env) = Out
 =============================================================================
